@@ -93,8 +93,30 @@ def seg_alphabet(svg, m):
     return d
 
 
+def _edited(svg, how):
+    """paths whose segment list was edited through the public list interface, so that the library had to repair a
+    junction (the neighbours of the edit now meet at a point that one of them did not have before)"""
+    p = svg.Path("M1,1 L3,-2 Q7,5 -4,1.5 C11,-6 0.25,13 -8.5,2.75 L2,2")
+    if how == "del":
+        del p[2]
+    elif how == "set":
+        p[2] = svg.Line((9, 9), (6, -1))
+    elif how == "insert":
+        p.insert(2, svg.Line((9, 9), (6, -1)))
+    elif how == "append":
+        p.append(svg.QuadraticBezier((20, 20), (22, 25), (25, 21)))
+    elif how == "iadd":
+        p += svg.Arc((20, 20), 5, 3, 30, 0, 1, (25, 21))
+    return p
+
+
 def path_alphabet(svg):
     d = {
+        "path-edit-del": lambda: _edited(svg, "del"),
+        "path-edit-set": lambda: _edited(svg, "set"),
+        "path-edit-insert": lambda: _edited(svg, "insert"),
+        "path-edit-append": lambda: _edited(svg, "append"),
+        "path-edit-iadd": lambda: _edited(svg, "iadd"),
         "path-lqc": lambda: svg.Path("M1,1 L3,-2 Q7,5 -4,1.5 C11,-6 0.25,13 -8.5,2.75 z"),
         "path-arcs": lambda: svg.Path("M0,0 A10,5 30 0 1 7,4 a3,6 -45 1 0 -4,1.5 L2,2 Z"),
         "path-2sub": lambda: svg.Path("M0,0 h5 v5 z m8,1 a2,1 0 1 1 0,0.5 l1,1"),
